@@ -733,10 +733,13 @@ func (v wv) String() string {
 		}
 		return "[" + strings.Join(parts, ",") + "]"
 	case "map":
+		// rendered in key order so that messages are deterministic even when the
+		// value went through a Go map inside refinery
 		parts := []string{}
 		for _, kv := range v.M {
 			parts = append(parts, fmt.Sprintf("%q:%s", kv.Key, kv.V.String()))
 		}
+		sort.Strings(parts)
 		return "{" + strings.Join(parts, ",") + "}"
 	}
 	return "?" + v.K
